@@ -196,7 +196,10 @@ def worker(ctx, prop):
             txt = [c for c in data.draw(fonts.text_strategy(sup[f], 0, ctx.n(24, 64))) if c]
             if prop == 'C02' and txt and data.draw(st.integers(0, ctx.n(60, 12))) == 0:
                 # work-bound class: long texts (the H1 bound scales with the slot count; the harness checks it per pass)
-                txt = (txt * (ctx.n(512, 4096) // len(txt) + 1))[:ctx.n(512, 4096)]
+                # (collision-avoidance passes are quadratic in the text by design -- Awami: 4096 stacked marks take ~50 s alone -- and are not
+                # rule loops; long texts on those fonts stay short enough that the watchdog can never mistake them for a hang)
+                cap = ctx.n(512, 4096) if not f.startswith('Awami') else ctx.n(512, 768)
+                txt = (txt * (cap // len(txt) + 1))[:cap]
             enc = data.draw(st.sampled_from([1, 2, 4]))
             if data.draw(st.integers(0, 3)) == 0:
                 # ill-formed code-unit sequences (kept raw): every one must become exactly one U+FFFD char-info (C05) and be shaped safely (C02)
